@@ -1,4 +1,5 @@
 import Httpcache.Proofs.Invalidate
+import Httpcache.Proofs.UrlKey
 /-
 C07 — Successful unsafe requests invalidate what is stored for their target.
 
@@ -78,5 +79,67 @@ theorem cross_origin_stays_cached (cfg : Cfg) (t0 : Int) (req : Req) (tr : List 
           NotSameOrigin cfg req rr.header sLocation → NotSameOrigin cfg req rr.header sContentLocation →
           x = makeURLKey req ∨ ∃ refs, Step.getRefs (makeURLKey req) refs ∈ tr1 ∧ ∃ ref ∈ refs.getD [], x = ref.id :=
   unsafe_exchange_deletes_only_target cfg t0 req tr r hu h
+
+/-- the key under which a Location / Content-Location URI is invalidated is the RFC 3986 normal form of the
+    reference resolved against the request URI by RFC 3986 §5.2.2 (`Spec.resolveRef`, `Spec.urlNormQ` — what the
+    monitor computes on the trace): so it is the key under which a request for that URI, spelled the same way or
+    any equivalent way, stored its response (`C03.key_with_forced_query_is_rfc_normal_form`). For every request
+    URL with a host and every reference that url.Parse accepts (its components are glue) and that is not opaque.
+    On the pinned tree the reference went through url.URL.ResolveReference, which removes dot segments before the
+    percent-encoding is normalised and drops an empty segment after a ".." at the root: the key deleted for
+    "/..//b" or "/a/%2e%2e/../b" was not the key such a request had stored under. -/
+theorem location_key_is_rfc_resolution (req : Req) (g : LocGlue) (hopq : g.kOpaq = []) (hhost : req.host ≠ [])
+    (hs : (resolveLoc req g).kScheme = (str% "http") ∨ (resolveLoc req g).kScheme = (str% "https")) :
+    (resolveLoc req g).key =
+      (match Spec.resolveRef req.scheme req.host req.path req.query req.forceQuery g.kScheme g.kHost g.kPath g.kQuery g.kForceQuery with
+       | (ts, th, tp, tq, tfq) => Spec.urlNormQ ts th tp tq tfq) := by
+  unfold LocGlue.key
+  unfold resolveLoc at hs ⊢
+  unfold Spec.resolveRef
+  by_cases h1 : g.kScheme.isEmpty = true
+  · simp only [h1, Bool.not_true, Bool.false_eq_true, ↓reduceIte] at hs ⊢
+    by_cases h2 : g.kHost.isEmpty = true
+    · simp only [h2, Bool.not_true, Bool.false_eq_true, ↓reduceIte] at hs ⊢
+      by_cases h3 : g.kPath.isEmpty = true
+      · simp only [h3, ↓reduceIte] at hs ⊢
+        by_cases h4 : (g.kQuery.isEmpty && !g.kForceQuery) = true
+        · simp only [h4, ↓reduceIte] at hs ⊢
+          simp only [hopq]
+          exact keyQ_eq_spec _ _ _ _ _ hs
+        · simp only [h4, Bool.false_eq_true, ↓reduceIte] at hs ⊢
+          simp only [hopq]
+          exact keyQ_eq_spec _ _ _ _ _ hs
+      · simp only [h3, Bool.false_eq_true, ↓reduceIte] at hs ⊢
+        by_cases h5 : g.kPath.head? = some '/'
+        · simp only [h5, ↓reduceIte] at hs ⊢
+          simp only [hopq]
+          exact keyQ_eq_spec _ _ _ _ _ hs
+        · simp only [h5, ↓reduceIte] at hs ⊢
+          simp only [hopq]
+          rw [keyQ_eq_spec _ _ _ _ _ hs]
+          cases hp : g.kPath with
+          | nil => simp [hp] at h3
+          | cons c t =>
+            have hc : c ≠ '/' := by intro e; apply h5; rw [hp, e]; rfl
+            unfold Spec.urlNormQ Spec.urlNorm
+            have := rooted_merge req.host req.path (c :: t) c t hhost rfl hc
+            unfold dirOf at this
+            rw [this]
+    · simp only [h2, Bool.not_false, ↓reduceIte] at hs ⊢
+      simp only [hopq]
+      exact keyQ_eq_spec _ _ _ _ _ hs
+  · simp only [h1, Bool.not_false, ↓reduceIte] at hs ⊢
+    rw [hopq]
+    exact keyQ_eq_spec _ _ _ _ _ hs
+
+/-- the two reported spellings, evaluated: "/..//b" names "//b", "/a/%2e%2e/../b" names "/b" -/
+example : (resolveLoc { method := sGET, scheme := (str% "http"), host := (str% "h.example"), path := (str% "/p"), query := [], opaq := [], header := [] }
+            { scheme := [], host := [], kScheme := [], kHost := [], kPath := (str% "/..//b"), kQuery := [], kOpaq := [] }).key = (str% "http://h.example//b") ∧
+          (resolveLoc { method := sGET, scheme := (str% "http"), host := (str% "h.example"), path := (str% "/p"), query := [], opaq := [], header := [] }
+            { scheme := [], host := [], kScheme := [], kHost := [], kPath := (str% "/a/%2e%2e/../b"), kQuery := [], kOpaq := [] }).key = (str% "http://h.example/b") ∧
+          (resolveLoc { method := sGET, scheme := (str% "http"), host := (str% "h.example"), path := (str% "/d/p"), query := [], opaq := [], header := [] }
+            { scheme := [], host := [], kScheme := [], kHost := [], kPath := (str% "../x/./b"), kQuery := [], kOpaq := [] }).key = (str% "http://h.example/x/b") := by
+  decide
+
 
 end Httpcache.C07
